@@ -157,9 +157,13 @@ func (m *c08Model) podEvent(c *kit.Case, r *kit.Rand, tag string, p *c08Pod) str
 			}
 			fallthrough
 		case 2:
+			if r.Pct(40) {
+				m.evResync(c, tag, p)
+				return "resync"
+			}
 			return update([]string{"noop"})
 		}
-		asp := subset([]string{"resources", "priority", "cond-init", "cond-sched", "cond-ready", "phase-running", "terminate", "labels"}, []int{28, 24, 18, 14, 12, 12, 6, 12})
+		asp := subset([]string{"resources", "priority", "cond-init", "cond-sched", "cond-ready", "phase-running", "terminate", "labels", "terminating"}, []int{28, 24, 18, 14, 12, 12, 6, 12, 6})
 		return update(asp)
 	case "terminated":
 		// a finished pod stays around for a while (until its owner or the GC deletes it): reports keep coming
@@ -212,18 +216,35 @@ func (m *c08Model) metricEvent(c *kit.Case, r *kit.Rand, tag string, node string
 }
 
 func TestVerifC08Estimate(t *testing.T) {
-	kit.Run(t, kit.Config{Property: "C08", Unit: "estimate", Quick: 360, Thorough: 9000,
-		Rule: "histories of 60-200 events over 2-3 nodes and 3-8 pod slots on a real podAssignCache with a fake clock: informer add (pending or already bound)/update changing a random non-empty COMBINATION of {resources, priority, conditions, phase incl. terminate, priority/QoS labels together with a spec/conditions change}, the kubelet's completion update (phase Succeeded/Failed + Ready/ContainersReady=False in one update) at a fixed weight, node change alone or combined, no-op; finished pods linger and are followed by reports that do and do not list them; delete(+tombstone, repeated), Reserve/Unreserve through the Plugin, binding confirmation, re-use of a name with a new UID, NodeMetric add/update/delete with updateTime placed on and around (timestamp+interval) and the estimation deadlines, pod usages present/absent/partial, prod flags right and wrong, empty status; after every event both oracles for every node x {whole node, prod, 5 aggregation types x (no period, 3 periods), one unreported period}; distinct = (event kind, pod state before, per-node report kind, #assigned, #estimated, #reflected); non-trivial = a case in which some check saw a complete report with at least one pod still estimated and at least one pod reflected by the report on the same node"},
+	kit.Run(t, kit.Config{Property: "C08", Unit: "estimate", Quick: 280, Thorough: 9000,
+		Rule: "histories of 60-200 events (4%: 300-450) over 1-5 nodes (mostly 2-3) and 2-12 pod slots (mostly 3-8; in 35% of the cases two slots share a name across namespaces) on a real podAssignCache with a fake clock; pods with 1-6 containers, 0-3 init containers (also restartable), overhead, zero/sub-milli/huge quantities, every priority-class boundary, all priority/QoS label values, custom factor/seconds annotations incl. degenerate ones, terminating (deletionTimestamp) and phase-Unknown pods, resync updates (old==new); report intervals 1s-1h and unset, a fourth resource sorting before cpu in 12%: informer add (pending or already bound)/update changing a random non-empty COMBINATION of {resources, priority, conditions, phase incl. terminate, priority/QoS labels together with a spec/conditions change}, the kubelet's completion update (phase Succeeded/Failed + Ready/ContainersReady=False in one update) at a fixed weight, node change alone or combined, no-op; finished pods linger and are followed by reports that do and do not list them; delete(+tombstone, repeated), Reserve/Unreserve through the Plugin, binding confirmation, re-use of a name with a new UID, NodeMetric add/update/delete with updateTime placed on and around (timestamp+interval) and the estimation deadlines, pod usages present/absent/partial, prod flags right and wrong, empty status; after every event both oracles for every node x {whole node, prod, 5 aggregation types x (no period, 3 periods), one unreported period}; distinct = (event kind, pod state before, per-node report kind, #assigned, #estimated, #reflected); non-trivial = a case in which some check saw a complete report with at least one pod still estimated and at least one pod reflected by the report on the same node"},
 		func(c *kit.Case) {
 			r := c.R
 			or := r.Fork() // oracle-side choices (fresh cache feed order) do not perturb the history
 			args, useR3 := c08GenArgs(r)
 			env := c08NewEnv(c, args, useR3, c08Base.Add(time.Duration(r.Intn(1000))*time.Millisecond))
-			m := c08NewModel(env, r.Range(2, 3), r.Range(3, 8))
+			// mostly 2-3 nodes and 3-8 pod slots (collisions and re-use happen constantly); sometimes a single
+			// node, 4-5 nodes, 2 slots or up to 12 slots
+			m := c08NewModel(env, kit.Pick(r, []int{2, 2, 2, 3, 3, 3, 3, 1, 4, 5}), kit.Pick(r, []int{3, 4, 5, 6, 7, 8, 3, 4, 5, 6, 7, 8, 2, 10, 12}))
+			if r.Pct(35) {
+				m.shareNames()
+				c.Count("cases_names_shared_across_namespaces", 1)
+			}
+			c.Count(fmt.Sprintf("cases_nodes_%d", len(m.nodes)), 1)
+			if len(m.pods) >= 10 {
+				c.Count("cases_10_or_more_pod_slots", 1)
+			}
+			if len(env.vec) >= 1 && env.vec[0] == c08R4 {
+				c.Count("cases_resource_sorting_before_cpu", 1)
+			}
 			modes := c08AllModes(env)
 			c.Op("args: %s", env.argsString())
 			c.Op("nodes=%v pods=%d", m.nodes, len(m.pods))
 			nev := r.Range(60, 200)
+			if r.Pct(4) {
+				nev = r.Range(300, 450) // an occasional long history
+				c.Count("cases_long_history", 1)
+			}
 			nontrivial := false
 			for i := 0; i < nev; i++ {
 				m.stepClock(r)
